@@ -21,9 +21,9 @@ except (ImportError, AttributeError) as e:       # a name the harness reads is g
     raise MachineryError("C17 observation target missing: %r" % (e,))
 
 
-def open_doc(data, password=""):
+def open_doc(data, password="", caching=True):
     fp = data if hasattr(data, "read") else BytesIO(data)
-    return PDFDocument(PDFParser(fp), password=password)
+    return PDFDocument(PDFParser(fp), password=password, caching=caching)
 
 
 def page_labels(doc, n):
@@ -61,7 +61,8 @@ def dest_page(doc, value):
 
 
 def ask_dest(doc, key):
-    """-> ("value", raw value) | ("NotFound",) | ("None",) | ("TypeError",) ; other exceptions propagate"""
+    """-> ("value", raw value) | ("NotFound",) | ("None",) | ("TypeError",) ; other exceptions propagate
+    (pdfminer's own PDFTypeError is not a TypeError: it propagates)"""
     try:
         v = doc.get_dest(key)
     except PDFDestinationNotFound:
